@@ -415,8 +415,8 @@ def b_roundtrip(g, spec):
 
 def b_wrapper(g, wmagic, inner_spec, depth):
     """A compressed wrapper (gzip stub) whose inner set is symbolic.  Absolute-offset oracle per protocol:
-    magic 0: inner offsets are absolute as stored; magic 1: inner offsets are relative 0..n-1 and
-    abs_i = wrapper_offset - (n-1) + i."""
+    magic 0: inner offsets are absolute as stored; magic 1: inner offsets are relative (ascending, possibly with gaps left
+    by compaction) and abs_i = wrapper_offset - rel_last + rel_i."""
     inner = _mk_messages(g, inner_spec)
     n = len(inner)
     woff = g.int(n, 2**62)
@@ -430,9 +430,18 @@ def b_wrapper(g, wmagic, inner_spec, depth):
             entries.append((offs[i], KafkaCodec._encode_message(inner[i])))
             exp_offs.append(offs[i])
     else:
+        # relative offsets 0 <= r_0 < r_1 < ... (dense 0..n-1 from a producer; with gaps and a non-zero first one after log
+        # compaction); the wrapper's offset is the absolute offset of the LAST inner message: abs_i = woff - r_last + r_i
+        rel = []
         for i in range(n):
-            entries.append((i, KafkaCodec._encode_message(inner[i])))
-            exp_offs.append(woff - (n - 1) + i)
+            r = g.int(0, 2**20, "rel")
+            if rel:
+                g.assume(r > rel[-1])
+            rel.append(r)
+        g.assume(woff >= rel[-1])
+        for i in range(n):
+            entries.append((rel[i], KafkaCodec._encode_message(inner[i])))
+            exp_offs.append(woff - rel[-1] + rel[i])
     payload = gz_encode(ref.encode_message_set(entries))
     if depth == 2:
         # wrap once more: the outer wrapper carries a set holding the inner wrapper
